@@ -29,7 +29,7 @@ CHUNK = 4
 COMBOS = [(p, m) for p in ("/a", "/a/{id}", "/b") for m in ("get", "post", "delete")]
 REP_SETS = [[0], [0, 1], [0, 3], [1, 4, 5], [0, 3, 6], [0, 1, 4, 7]]
 SPELLINGS = ["DataSources", "data-sources", "data_sources", "DATASOURCES", "datasources", "Data Sources"]
-TAG_PATTERNS = ["none", "one", "two-alt", "multi", "case", "punct", "space", "upper", "multi-case", "mixed-none", "three", "digits", "dot", "slash", "colon-plus"]
+TAG_PATTERNS = ["none", "one", "two-alt", "multi", "case", "punct", "space", "upper", "multi-case", "mixed-none", "three", "digits", "dot", "slash", "colon-plus", "default-mix"]
 ID_PATTERNS = ["absent", "snake", "camel", "duplicate", "dup-after-sanitise", "fastapi", "keyword", "nonident"]
 STRATEGIES = ["operationId", "clean", "path"]
 
@@ -43,6 +43,8 @@ def tags_for(pattern, i):
         "punct": [["x-y"], ["x_y"]][i % 2], "space": [["x y"], ["xY"]][i % 2], "upper": ["DataSources"],
         "multi-case": [["x", "y"], ["Y"]][i % 2], "mixed-none": [None, ["x"]][i % 2], "three": [["x"], ["y"], ["z"]][i % 3],
         "digits": [["v1"], ["v2"]][i % 2], "dot": [["x.y"], ["x-y"]][i % 2], "slash": [["x/y"], ["x_y"]][i % 2], "colon-plus": [["x:y"], ["x+y"]][i % 2],
+        # untagged operations next to operations tagged with a spelling of the name the generator uses for untagged ones
+        "default-mix": [None, ["default"], ["Default"]][i % 3],
     }[pattern]
 
 
